@@ -20,6 +20,43 @@ add('C02', 'exploration', 'runtime monitoring: differential oracle (executable r
     'Differential runtime check against an independent reference model on every generated case; permutations of small dicts enumerated completely; not a proof.',
     'the reference model is a second reading of the documentation; shared misreadings are invisible (mitigated by C03/C18)', 'DESIGN.md#c02')
 
+add('C03', 'exploration', 'runtime monitoring: all-pairs agreement oracle over the eight traversal entry points on generated trees, python folds as oracle for reductions, error-parity on single-fault malformed nodes',
+    'Every generated case is pushed through all traversal entry points of the rebuilt engine and compared pairwise; reductions compared with python folds; held on the executions listed in evidence.',
+    'no external reference: agreement among entry points; single-fault inputs only for error parity', 'DESIGN.md#c03')
+add('C04', 'exploration', 'runtime monitoring: per-leaf accessor/path oracle (accessor(tree) is leaf, entry typing vs reference, prefix-freeness, ==/hash, slice/concat, eval(codify)) on generated trees',
+    'Each leaf of each generated case is addressed through its accessor on the real objects; typing is compared with the reference model; held on the executions listed.',
+    'expected entry typing from vf.refmodel; FlattenedEntry / non-literal keys excluded from eval(codify) only', 'DESIGN.md#c04')
+add('C05', 'exploration', 'runtime monitoring: transparent call recorder as f over tree_map family / traverse / walk with generated suffix and non-suffix rests; event-log oracle (count, order, argument identity, post-order)',
+    'The real tree_map family is driven with a recording function; the recorded event log is checked against the reference extraction of rest subtrees and post-order; held on the executions listed.',
+    'rests are well-formed trees; predicates are structural', 'DESIGN.md#c05')
+add('C06', 'exploration', 'runtime monitoring: pair generation (one-attribute edits, neutral edits, option pairs) with reference-predicted ==, hash contract asserted whenever the implementation answers ==, 11 construction routes',
+    'Pairs of treespecs are produced by the real engine through many routes and option pairs; equality is compared with a reference prediction and the hash contract is checked on every equal pair observed.',
+    'expected equality derived from vf.refmodel.equal_shapes; NaN keys excluded from the pickle route', 'DESIGN.md#c06')
+add('C07', 'exploration', 'runtime monitoring: four-way agreement oracle (reference is_prefix, flatten_up_to, is_prefix, prefix_errors) on generated (prefix, full) pairs incl. nested reordered dicts; algebraic laws on chains',
+    'Each generated pair is judged by the three implementations in the rebuilt engine/Python layer and by the reference; any disagreement, wrong exception type or wrong subtree is a violation.',
+    'structural predicates only; partition clause as multiset when key orders differ', 'DESIGN.md#c07')
+add('C08', 'exploration', 'runtime monitoring: algebraic consistency oracle over inspection methods, index probes in [-n-2,n+1], constructors, transform, compose and repr at every node of generated treespecs',
+    'Every node of every generated treespec is inspected through the public API and rebuilt through each constructor; compose is compared with the reference composition and with an actual composed tree.',
+    'reference shape/renderer from vf.refmodel', 'DESIGN.md#c08')
+add('C09', 'exploration', 'runtime monitoring: reference least-upper-bound oracle + per-path leaf replication oracle on generated pairs/triples; recorded calls for tree_broadcast_map*',
+    'Pairs and triples are broadcast by the real code; result structure is compared with a reference LUB (incl. custom path entries) and every result leaf is traced to its unique source leaf.',
+    'reference LUB keeps the first operand node data; comparison per leaf path', 'DESIGN.md#c09')
+add('C10', 'exploration', 'runtime monitoring: index-law / involution / shape oracle on generated (outer, inner) pairs with unique leaves; recorded-call comparison for tree_transpose_map*',
+    'Outer-of-inner trees with unique leaf objects are transposed by the real code; the index law is checked leaf by leaf, rejections are enumerated per case.',
+    'f memoised per leaf to compare two runs by identity', 'DESIGN.md#c10')
+add('C11', 'exploration', 'runtime monitoring: observation-vector oracle across pickle protocols / copy, and across fresh interpreters with 4 registry histories (child processes regenerate the case and compare with a fresh flatten)',
+    'Pickled bytes produced by the real engine are loaded in the same process and in fresh interpreters whose registry history is manipulated; observation vectors and ==/hash are compared, missing registrations must raise.',
+    'seeded regeneration in the child; NaN keys and python-unpicklable struct-sequence classes excluded', 'DESIGN.md#c11')
+add('C12', 'fault_enumeration', 'runtime monitoring: exhaustive bounded history enumeration (register/unregister/dataclass x types x namespaces x argument faults x warnings-as-errors) against a dict model, engine and Python views observed after every step',
+    'Every history up to the bound is executed on the real registry (fresh classes per history) and after each step, successful or failing, ~170 observations are compared with a dict model; exhaustive for the stated bound only.',
+    'model = dict[(namespace,type)]; active registration observed behaviourally through logging flatten functions', 'DESIGN.md#c12')
+add('C13', 'exploration', 'runtime monitoring: exhaustive enumeration of well-nested with-block programs to a bound, real execution, exact mode-set readback and behavioural observation in every namespace at every enter/exit event',
+    'All well-nested programs to the bound are really executed; at each event the exact engine mode set and the flatten behaviour in every namespace are compared with a set model (snapshot-at-enter == state-at-exit).',
+    'single-threaded; exact state via _C.is_dict_insertion_ordered(ns, inherit_global_namespace=False)', 'DESIGN.md#c13')
+add('C14', 'exploration', 'runtime monitoring: observation-vector invariance under all orders of mutation/registry/GC actions, before/after structural snapshots around ~40 API calls, weakref probes for leaf retention and GC of payload cycles',
+    'The treespec observation vector is re-read after every step of permuted hostile actions; every API call is bracketed by deep snapshots of all its inputs; weakrefs decide retention and cycle collection.',
+    '__getstate__ not gated; snapshots record identities, key order and metadata', 'DESIGN.md#c14')
+
 ALL = [f'C{i:02d}' for i in range(1, 21)]
 
 
